@@ -417,6 +417,12 @@ def shortcuts(ctx, rule='A5'):
 
 
 def check(ctx):
+    # a candidate encoder is rejected through the exceptions the selector handles - not by a ZeroDivisionError on the
+    # empty existence pattern the function itself tests for
+    from ..rules import guards as _g12
+    _g12.check_zero_tested_divisions(ctx, [f for f in ctx.prog.all_functions()
+                                           if f.module.name.startswith('adsg_core.optimization.')])
+    ctx.floor('A10z', 5, 'divisions by a value the function tests against zero')
     exception_cover(ctx)
     fresh_imputer_per_encoder(ctx)
     view_write(ctx)
